@@ -62,3 +62,27 @@ def positionals_have_index(fx, res, rule):
     wr = [c for t in tree(bs) for c in t.calls() if False]
     idx_writes = [(t, i) for t in tree(bs) for i, s_ in writes_field(t, "index")]
     res.check(bool(idx_writes), rule, "lemma|build-assigns-positional-index", bs.where(), "_build_self assigns an index to positionals that have none", "_build_self no longer assigns indices to positionals")
+
+
+def build_subcommand_name_exists(fx, res, rule):
+    """parse_help_subcommand unwraps `sc._build_subcommand(name)` (audit: "sc_name was just obtained from find_subcommand(cmd) on
+    the same sc"): _build_subcommand looks the subcommand up by its NAME, so the name handed to it must be the get_name() of what
+    find_subcommand returned on the same command — an alias text, an inferred prefix or any other spelling makes the lookup fail
+    and the unwrap panic."""
+    b = fx.body("clap_builder::parser::parser::Parser::parse_help_subcommand")
+    n = 0
+    for c in b.calls_to(r"Option::(unwrap|expect)$"):
+        e = expr(b, c.args[0])
+        m = re.fullmatch(r"_build_subcommand\((\w+),(.*)\)", e)
+        if not m:
+            continue
+        n += 1
+        recv, name = m.group(1), m.group(2)
+        m2 = re.fullmatch(r"map\(find_subcommand\((\w+),.*\),closure\(\)\)#Some\.0", name)
+        cl_ok = False
+        if m2:
+            mp = [x for x in b.calls_to(r"Option(<[^>]*>)?::map$") if expr(b, x.dest) + "#Some.0" == name or expr(b, x.args[0]).startswith("find_subcommand(")]
+            cl_ok = bool(mp) and all(re.fullmatch(r"(to_owned|to_string|clone|into)\(get_name\(\w+\)\)", expr(cb, 0)) is not None for x in mp for cb in closure_bodies(fx, x)[-1:])
+        res.check(m2 is not None and m2.group(1) == recv and cl_ok, rule, "lemma|help-subcommand-name-is-canonical", c.where(), "_build_subcommand(find_subcommand(x).get_name()).unwrap() on the same command",
+                  "parse_help_subcommand unwraps _build_subcommand(%s): the name does not come from find_subcommand(..).get_name() on the same command (an alias or an inferred spelling is not a subcommand NAME, the lookup returns None and `help <that>` panics)" % name[:100])
+    res.floor(rule, "unwrap of _build_subcommand in parse_help_subcommand", n, 1)
